@@ -3,6 +3,7 @@
 package bounds
 
 import (
+	"os"
 	"fmt"
 	"go/types"
 	"sort"
@@ -357,7 +358,7 @@ func (it *interp) describe(d *disjunct, goal lin.Ineq) string {
 		parts = append(parts, f.String(it.at.name))
 	}
 	sort.Strings(parts)
-	if len(parts) > 14 {
+	if len(parts) > 14 && os.Getenv("RTPCHECK_NEEDDBG") == "" {
 		parts = append(parts[:14], fmt.Sprintf("... (%d more)", len(parts)-14))
 	}
 	return "goal " + goal.String(it.at.name) + " ; facts: " + strings.Join(parts, " ; ")
